@@ -119,7 +119,7 @@ class LG:
             "decoy_after", "decoy_prevline", "decoy_nextline", "oneline_def_lambda", "in_list", "in_dict", "multiline_body", "semicolon", "comment_lines", "kwarg_after",
             "trailing_comma", "chain_multibody", "nested_call_arg", "cond_expr", "backslash", "comprehension", "where_single", "where_chain", "lambda_own_line_chain",
             "decoy_default_arg", "string_noise_line", "def_by_name", "def_by_name_docstring", "lambda_var", "three_chain_args",
-            "def_nested_by_name", "kwarg_lambda", "cond_lambda_arg", "cond_lambda_arg", "cond_lambda_two_calls", "cond_lambda_two_calls", "list_lambda_arg", "or_lambda_arg", "dict_lambda_arg", "wrapped_lambda_arg",
+            "def_nested_by_name", "kwarg_lambda", "factory_lambda", "kwarg_const_after", "user_wrapper_const", "two_param_elsewhere", "after_multiline_string", "cond_lambda_arg", "cond_lambda_arg", "cond_lambda_two_calls", "cond_lambda_two_calls", "list_lambda_arg", "or_lambda_arg", "dict_lambda_arg", "wrapped_lambda_arg",
         ])
         p = self.pname()
         B = lambda **kw: self.body(p, **kw)  # noqa
@@ -247,6 +247,22 @@ class LG:
                 # indented than the def
                 return t, True, True, f"def sel({p}): return ({p}.n{m}, {p}.g(\'\'\'ab{m}\n{{IND}}        cd\n  ef\nx\'\'\'))\n{{IND}}def other({p}): return {p}.decoy{m}\n{{IND}}r = ds.Select(sel)", "def-multiline-string"
             return t, True, True, f"def sel({p}): return ({p}.n{m}, {p}.f{m}({m}))\n{{IND}}def other({p}): return {p}.decoy{m}\n{{IND}}r = ds.Select(sel)", "attr"
+        if t == "factory_lambda":
+            (b1, f), (b2, _) = B(), B()
+            return t, False, True, f"r = ds.Select(lambda {p}: {b1}).Select((lambda sc: lambda {p}: ({b2}, sc))(2))", f
+        if t == "kwarg_const_after":
+            self.k += 1
+            return t, False, True, r.choice([f"r = ds.Where(lambda {p}: True).Where(filter=lambda {p}: False)", f"r = ds.Select(lambda {p}: {self.k}).Select(f=lambda {p}: -{self.k})"]), "constant-body"
+        if t == "user_wrapper_const":
+            self.k += 1
+            b1, f = B()
+            return t, False, True, f"r = then(ds.Select(lambda {p}: {b1}), lambda {p}: {self.k})", f
+        if t == "two_param_elsewhere":
+            b1, f = B()
+            return t, True, True, f"helper(lambda a, b: a + b, [1, 2]); r = ds.Select(lambda {p}: {b1})", f
+        if t == "after_multiline_string":
+            b1, f = B()
+            return t, False, True, f'r = ds.Where(lambda q: q.title != """\n old: Select(lambda {p}: {p}.fake) """).Select(lambda {p}: {b1})  # """', f
         if t == "kwarg_lambda":
             b, f = B()
             return t, False, False, f"r = ds.Select(f=lambda {p}: {b})", f
@@ -306,6 +322,7 @@ import contextlib
 FLAG = [True, True]
 def helper(f, *a): return True
 def keep(a, b): return b
+def then(s, f): return s.Select(f)
 def deco(f): return f
 @contextlib.contextmanager
 def cm():
